@@ -372,6 +372,22 @@ func (c *hCtx) checkFastVsSeq() {
 		names = append(names, k)
 	}
 	sort.Strings(names)
+	// a stream on the uniformity boundary with one failing sample (sensitive to how per-sample Q-values are recorded)
+	for _, w := range workflows(c.req.Budget) {
+		if w.name != "PeriodDetectFast" {
+			continue
+		}
+		if data, desc := uniformityBoundaryStream(c.req.Seed+1, 2500); data != nil {
+			seq := all[w.seqOf]
+			a := runWF(seq.f, &sliceReader{b: data, failAt: -1}, limitFor(w))
+			b := runWF(w.f, safeReader(&sliceReader{b: data, failAt: -1}), limitFor(w))
+			c.resp.Cases[name]++
+			if a.ok != b.ok || itemOf(a.err) != itemOf(b.err) {
+				c.report(name, map[string]interface{}{"fast": w.name, "stream": desc, "seed": c.req.Seed}, b.String(), "same verdict and failing item as "+seq.name+": "+a.String())
+				return
+			}
+		}
+	}
 	// a linear-feedback stream (complexity 89) that the first twelve items accept: only item 13 can reject it
 	for _, w := range workflows(c.req.Budget) {
 		if w.name != "PeriodDetectFast" {
@@ -433,6 +449,241 @@ func (c *hCtx) checkFastVsSeq() {
 			if a.ok != b.ok || (a.err == "") != (b.err == "") || itemOf(a.err) != itemOf(b.err) {
 				c.report(name, map[string]interface{}{"fast": w.name, "stream": sn, "seed": c.req.Seed}, b.String(), "same verdict and failing item as "+seq.name+": "+a.String())
 				return
+			}
+		}
+	}
+}
+
+// C07: the decision rule itself, recomputed from the library's per-sample results by an independent implementation of
+// GM/T 0062 (pass counts against the exact threshold, ten-bin uniformity statistic), compared with the verdict AND the
+// named item of the sequential and parallel workflows.
+func refUniformity(q []float64) float64 {
+	var h [10]float64
+	for _, v := range q {
+		j := 9
+		for k, e := range []float64{0.1, 0.2, 0.3, 0.4, 0.5, 0.6, 0.7, 0.8, 0.9} {
+			if v < e {
+				j = k
+				break
+			}
+		}
+		h[j]++
+	}
+	V := 0.0
+	e := float64(len(q)) / 10
+	for _, x := range h {
+		V += (x - e) * (x - e) / e
+	}
+	return randomness.Igamc(4.5, V/2)
+}
+
+func refDecision(stream []byte, s, n int, round func([]byte) []*randomness.TestResult) (bool, string, string) {
+	var counts []int
+	var qs [][]float64
+	for i := 0; i < s; i++ {
+		res := round(stream[i*n : (i+1)*n])
+		if counts == nil {
+			counts = make([]int, len(res))
+			qs = make([][]float64, len(res))
+		}
+		for k, r := range res {
+			qs[k] = append(qs[k], r.Q)
+			if r.Pass {
+				counts[k]++
+			}
+		}
+	}
+	t := int(exactThreshold(int64(s)))
+	for k := range counts {
+		if counts[k] < t {
+			return false, randomness.TestMethodArr[k].Name, fmt.Sprintf("item %d passes %d of %d samples, threshold %d", k, counts[k], s, t)
+		}
+	}
+	for k := range qs {
+		if u := refUniformity(qs[k]); u < 0.0001 {
+			return false, randomness.TestMethodArr[k].Name, fmt.Sprintf("item %d uniformity %g < 0.0001", k, u)
+		}
+	}
+	return true, "", "every item reaches the threshold and the uniformity level"
+}
+
+// A pool of random 2500-byte samples with their per-item Q-values, from which 20-sample streams with a prescribed
+// Q-histogram for one two-sided item (Q != P) are assembled.
+type poolCand struct {
+	b   []byte
+	q   []float64
+	all bool // passes every item
+}
+
+var samplePool = map[int64][]poolCand{}
+
+func poolFor(seed int64, n int) []poolCand {
+	if p, ok := samplePool[seed]; ok {
+		return p
+	}
+	var pool []poolCand
+	for i := 0; i < 2500; i++ {
+		b := goodBytes(seed*7919+int64(i), n)
+		c := poolCand{b: b, all: true}
+		for _, r := range Round12(b) {
+			c.q = append(c.q, r.Q)
+			if !r.Pass {
+				c.all = false
+			}
+		}
+		pool = append(pool, c)
+	}
+	samplePool[seed] = pool
+	return pool
+}
+
+type qRange struct {
+	lo, hi float64
+	count  int
+}
+
+// pickByRanges: all-pass samples whose Q-value for item k falls into the given ranges, `count` per range.
+func pickByRanges(pool []poolCand, k int, rs []qRange) [][]byte {
+	var out [][]byte
+	used := map[int]bool{}
+	for _, r := range rs {
+		got := 0
+		for i := range pool {
+			if got == r.count {
+				break
+			}
+			if used[i] || !pool[i].all || pool[i].q[k] < r.lo || pool[i].q[k] >= r.hi {
+				continue
+			}
+			used[i] = true
+			out = append(out, pool[i].b)
+			got++
+		}
+		if got != r.count {
+			return nil
+		}
+	}
+	return out
+}
+
+func concat(bs [][]byte) []byte {
+	var out []byte
+	for _, b := range bs {
+		out = append(out, b...)
+	}
+	return out
+}
+
+var twoSided = []int{8, 7, 4, 0} // autocorrelation, binary derivative, runs, monobit: Q != P
+
+// uniformityBoundaryStream builds 20 samples for which one two-sided item k has exactly one failing sample whose
+// Q-value lies above 0.995, and a Q-histogram (9,2,1,1,1,1,1,1,2,1) whose uniformity statistic is about 0.00095: the
+// decision rule accepts, while a workflow that files the failing sample's Q anywhere else (or not at all) sees 0.00003.
+func uniformityBoundaryStream(seed int64, n int) ([]byte, string) {
+	pool := poolFor(seed, n)
+	for _, k := range twoSided {
+		var star []byte
+		for i := range pool {
+			c := &pool[i]
+			if c.q[k] <= 0.995 {
+				continue
+			}
+			res := Round12(c.b)
+			others := !res[k].Pass
+			for j, r := range res {
+				if j != k && !r.Pass {
+					others = false
+				}
+			}
+			if others {
+				star = c.b
+				break
+			}
+		}
+		if star == nil {
+			continue
+		}
+		pick := pickByRanges(pool, k, []qRange{{0, 0.1, 9}, {0.1, 0.2, 2}, {0.2, 0.3, 1}, {0.3, 0.4, 1}, {0.4, 0.5, 1}, {0.5, 0.6, 1}, {0.6, 0.7, 1}, {0.7, 0.8, 1}, {0.8, 0.9, 2}})
+		if pick == nil {
+			continue
+		}
+		return concat(append(pick, star)), fmt.Sprintf("20 samples chosen from goodBytes(%d*7919+i, %d), i<2500: item %d has one failing sample with Q > 0.995 and Q-histogram (9,2,1,1,1,1,1,1,2,1)", seed, n, k)
+	}
+	return nil, ""
+}
+
+// pNotQStream: every sample passes every item; the Q-values of one two-sided item lie in half-bins chosen so that the
+// Q-histogram (4,3,3,0,0,0,0,3,3,4) is acceptable (uniformity 0.12) while the histogram of the corresponding P-values
+// 2*min(Q,1-Q) is (8,0,6,0,6,0,...) (uniformity 2e-7): a workflow that records P where the standard says Q rejects.
+func pNotQStream(seed int64, n int) ([]byte, string) {
+	pool := poolFor(seed, n)
+	for _, k := range twoSided {
+		pick := pickByRanges(pool, k, []qRange{{0.005, 0.05, 4}, {0.1, 0.15, 3}, {0.2, 0.25, 3}, {0.75, 0.8, 3}, {0.85, 0.9, 3}, {0.95, 0.995, 4}})
+		if pick != nil {
+			return concat(pick), fmt.Sprintf("20 all-passing samples chosen from goodBytes(%d*7919+i, %d), i<2500: item %d has Q-histogram (4,3,3,0,0,0,0,3,3,4) and P-histogram (8,0,6,0,6,0,0,0,0,0)", seed, n, k)
+		}
+	}
+	return nil, ""
+}
+
+func (c *hCtx) checkDecisionRule() {
+	name := "decision-rule"
+	type strm struct {
+		desc string
+		b    func(n, s int) []byte
+	}
+	streams := []strm{
+		{"good-prng", func(n, s int) []byte { return goodBytes(c.req.Seed+31, n*s) }},
+		{"all-pass", func(n, s int) []byte { return allPassStream(c.req.Seed+32, s, n) }},
+		{"lfsr89", func(n, s int) []byte { return lfsrBytes(n * s) }},
+		{"repeated-block", func(n, s int) []byte {
+			blk := goodBytes(c.req.Seed+33, n)
+			var out []byte
+			for i := 0; i < s; i++ {
+				out = append(out, blk...)
+			}
+			return out
+		}},
+	}
+	for _, w := range workflows(c.req.Budget) {
+		s, n := 20, w.bytes/20
+		round := Round12
+		if w.bytes == 50*125000 {
+			s, n = 50, 125000
+		}
+		if n == 125000 {
+			round = Round15
+		}
+		list := streams
+		if n == 2500 {
+			if b, desc := uniformityBoundaryStream(c.req.Seed+1, n); b != nil {
+				list = append([]strm{{desc, func(int, int) []byte { return b }}}, list...)
+			}
+			if b, desc := pNotQStream(c.req.Seed+1, n); b != nil {
+				list = append([]strm{{desc, func(int, int) []byte { return b }}}, list...)
+			}
+		} else {
+			list = list[:2]
+		}
+		for _, st := range list {
+			data := st.b(n, s)
+			wantOK, wantItem, why := refDecision(data, s, n, round)
+			for _, chunk := range []int{0, 1000} {
+				if chunk != 0 && w.fast {
+					continue
+				}
+				ch := chunk
+				c.resp.Cases[name]++
+				got := runWF(w.f, safeReader(&sliceReader{b: data, failAt: -1, chunk: func() int { return ch }}), limitFor(w))
+				in := map[string]interface{}{"workflow": w.name, "stream": st.desc, "seed": c.req.Seed, "read_chunk": chunk}
+				if got.timeout || got.pan != "" || got.ok != wantOK || (got.ok && got.err != "") || (!got.ok && got.err == "") {
+					c.report(name, in, got.String(), fmt.Sprintf("(%v, …): %s", wantOK, why))
+					return
+				}
+				if !wantOK && itemOf(got.err) != wantItem {
+					c.report(name, in, got.String(), fmt.Sprintf("error naming %s: %s", wantItem, why))
+					return
+				}
 			}
 		}
 	}
@@ -736,6 +987,8 @@ func TestVerifHarness(t *testing.T) {
 		switch name {
 		case "chunking":
 			c.checkChunking()
+		case "decision-rule":
+			c.checkDecisionRule()
 		case "igamc-tail":
 			c.checkIgamcTail()
 		case "failing-source":
